@@ -169,6 +169,23 @@ def run(tier):
         P = r.get('P', r.get('err', '?'))
         if not P.startswith('ok'):
             chk.violation('streaming:' + c.split(' ', 3)[3] + ':' + (P.split(':') + ['?'])[1], f'streaming handle {c}: {P} {r}', {'case': c})
+    # "nonzero turns it on": every other truthy flag value must leave the handle in exactly the state ov_halfrate(vf,1) does
+    eq = []
+    for fm in models:
+        mid = (fm.L // 2) | 1
+        for alt in ('h2', 'hm', 'hb'):
+            for tpl in (['@'], ['@', 'rf4096'], ['rf4096', '@'], ['@', 'ps%d' % mid, 'rf37'], ['@', 'h0', 'rf37'], ['h1', '@', 'rf37'], ['@', 'rf37', '@'], ['ps%d' % mid, '@', 'pp%d' % (fm.L - 1)]):
+                eq.append((fm, alt, [alt if o == '@' else o for o in tpl], ['h1' if o == '@' else o for o in tpl]))
+    lines = []
+    for fm, alt, a, b in eq:
+        lines += [f'{fm.idx} s - plin ' + ' '.join(a), f'{fm.idx} s - plin ' + ' '.join(b)]
+    out = vlib.run_cases(exe, lines, ['--files', listfile], tag='eqflag')
+    for i, (fm, alt, a, b) in enumerate(eq):
+        chk.cov['evaluations'] += 1
+        ra, rb = out[2 * i], out[2 * i + 1]
+        if ra is None or rb is None or ra.startswith(('DIED', 'TIMEOUT')) or ra != rb:
+            chk.violation(f'{fm.name}:truthy_flag_{alt}_differs_from_1', f'history {a} and the same history with ov_halfrate(vf,1) leave different observations: {str(ra)[:200]} | {str(rb)[:200]}', {'file': fm.name, 'ops': a})
+    chk.cov['truthy_flag_equivalence_pairs'] = len(eq)
     if merr:
         chk.guard(False, 'replay determinism: %r' % (merr[:2],))
     chk.cov.update({'states': tot_states, 'transitions': tot_trans, 'traces_validated_against_impl': tot_trans,
